@@ -230,6 +230,8 @@ def scenarios(quick):
                (T.two_addr(maxseq=40), 'K', 4 if quick else 60, 2000, 'two-addresses'),
                # two replicas of one consumer (same filter id, told apart by the connection's uid): one of them stalls
                (T.same_id(T.tee(maxseq=40), ['A', 'B'], 'R'), 'B', 4 if quick else 60, 2000, 'replica-of-same-id'),
+               # a publisher that declares its consumers as required outputs: the stalled one still holds it back
+               (topos.with_required(T.tee(maxseq=40)), 'B', 4 if quick else 60, 2000, 'required-outputs'),
                # the publisher is an application using the blocking send()
                (T.blocking(T.tee(maxseq=40), ['S']), 'B', 4 if quick else 60, 2000, 'blocking-publisher'),
                # a worker of a balanced splitter with a '?' listener on its endpoint: the listener's requests must not
